@@ -170,7 +170,8 @@ def run_config(cfg, tier, seed):
             for e in qw.events:
                 if e[1] == 'store' and e[2] == 'set_recipients_delivered':
                     marks[e[3]] = marks.get(e[3], 0) + 1
-            res.violation({'kind': kind, 'marking_rounds': 'multi' if max(marks.values() or [0]) >= 2 else 'single', 'backend': wcfg['backend'], 'factory': wcfg.get('bounce', 'default'),
+            res.violation({'kind': kind, 'marking_rounds': 'multi' if max(marks.values() or [0]) >= 2 else 'single',
+                           'index_model': 'differs' if qw.index_model_differs else 'matches', 'backend': wcfg['backend'], 'factory': wcfg.get('bounce', 'default'),
                            'bounce_queue': wcfg.get('bounce_queue', 'self'), 'exception': ','.join(errs) or 'none',
                            'stranded': any(v[0] == 'recipient-stranded' for v in qw.violations)},
                           '%s; attempts=%r; errors=%r' % (detail, [(a['qid'][-2:] if a['qid'] else None, a['rcpts'], a['outcome']) for a in qw.attempts], qw.errors[:2]),
